@@ -55,7 +55,7 @@ LEVEL_NOTE = ('Trusted: mc.canon, the snapshot function in this file. Bounds: '
 MENU = ['cfg', 'par', 'cfgpos', 'list2', 'dict1', 'tuple1']
 ROOTS = ['cfg', 'par', 'cfgpos']
 LONG = 'long-' + 'x' * 90
-LEAVES = ['L1', LONG, 'dy']
+LEAVES = [LONG, 'dy', 'L1']
 NCHUNK = 48
 
 
@@ -118,7 +118,7 @@ def snapshot(root):
       out[id(v)] = (
           'B', type(v).__name__, id(v.__fn_or_cls__),
           tuple((k, id(a)) for k, a in v.__arguments__.items()),
-          tuple(sorted((str(k), tuple(sorted(t.name for t in ts)))
+          tuple(sorted((str(k), tuple(sorted(str(getattr(t, 'name', None) or repr(t)) for t in ts)))
                        for k, ts in v.__argument_tags__.items() if ts)),
           tuple(sorted((str(k), len(h))
                        for k, h in v.__argument_history__.items())))
